@@ -835,7 +835,7 @@ fn gen_case(stream: &str, id: u64, rng: Rng) -> (String, BTreeMap<String, u64>, 
 }
 
 fn generate(tier: &str, seed: u64) -> (Vec<String>, BTreeMap<String, u64>) {
-    let scale = if tier == "thorough" { 20 } else { 1 };
+    let scale = if tier == "thorough" { 40 } else { 1 };
     let plan: [(&str, u64); 4] = [("r", 2200 * scale), ("p", 1200 * scale), ("o", 800 * scale), ("x", 800 * scale)];
     let mut rng = Rng::new(seed);
     let mut cases = Vec::new();
